@@ -621,6 +621,26 @@ class List(list, base.Symbolic, pg_typing.CustomTyping):
       result.use_value_spec(self._value_spec)
     return result
 
+  def __iadd__(self, other: Iterable[Any]) -> 'List':
+    """Extends the List in place (`l += other`)."""
+    self.extend(other)
+    return self
+
+  def __imul__(self, n: int) -> 'List':
+    """Repeats the List in place (`l *= n`)."""
+    if base.treats_as_sealed(self):
+      raise base.WritePermissionError('Cannot repeat a sealed List.')
+    if not isinstance(n, numbers.Integral):
+      raise TypeError(
+          f'can\'t multiply sequence by non-int of type {type(n).__name__!r}.')
+    if n <= 0:
+      self.clear()
+    else:
+      items = list(self.sym_values())
+      for _ in range(n - 1):
+        self.extend(items)
+    return self
+
   def __rmul__(self, n: int) -> 'List':
     """Returns a repeated Lit of self."""
     return self.__mul__(n)
